@@ -166,6 +166,32 @@ def r2(ctx, facts, model):
                     if c.get("path") == "std::iter::Iterator::next" and "Enumerate" in (c.get("self_ty") or ""):
                         ok = any(r[0] == "param" and r[1] == 2 for r in b.roots(b.arg_origin(pos[1], 0)))
                         why = "" if ok else "the enumerated iterator is not over the batch parameter"
+                # (c) an index-driven loop (`while let Some(&e) = batch.get(k)` / `batch[k]`): the position is the very index the rejected
+                #     element was fetched with - the same local, not written between the fetch and the error
+                if why is None:
+                    root = b.copy_root(posop, pat)
+                    if root is not None:
+                        for gbb, gt in b.calls():
+                            gc = gt["callee"]
+                            if not ((gc.get("name") in ("get", "get_unchecked") and "slice" in gc.get("path", "")) or
+                                    (gc.get("name") == "index" and (gc.get("trait") or "").endswith("ops::Index"))) or len(gt["args"]) < 2:
+                                continue
+                            if not any(r[0] == "param" and r[1] == 2 for r in b.roots(b.arg_origin(gbb, 0))):
+                                continue
+                            if gt.get("target") is None or pat[0] not in b.reachable(gt["target"]):
+                                continue
+                            groot = b.copy_root(gt["args"][1], (gbb, len(b.blocks[gbb]["stmts"])))
+                            if groot is None or groot[0] != root[0]:
+                                continue
+                            # blocks on a path from this fetch to the error that does not fetch again (a later iteration has its own fetch)
+                            fwd = b.reachable(gt["target"], stop=[pat[0], gbb])
+                            between = {x for x in fwd if x != gbb and (x == pat[0] or pat[0] in b.reachable(x, stop=[gbb]))} | {pat[0]}
+                            written = any(st_["dst"]["local"] == root[0] and not st_["dst"]["proj"] and (bid_ != pat[0] or i_ < pat[1])
+                                          for bid_ in between for i_, st_ in enumerate(b.blocks[bid_]["stmts"]))
+                            # the fetched element is the one that is rejected: it (or its payload) is what the aliveness test / error is about
+                            if not written:
+                                ok, why = True, ""
+                                break
                 # (b) a counter in step with a loop over the batch (also what Iterator::position is rewritten to)
                 if why is None:
                     root = b.copy_root(posop, pat)
